@@ -678,3 +678,20 @@ Theorem C08_model_is_source_reconstruct_Mu : forall g d clip s,
   src_reconstruct_Mu g d clip s = GRet (reconstruct_Mu g d clip s).
 Proof. exact src_reconstruct_Mu_is_model. Qed.
 Print Assumptions C08_model_is_source_reconstruct_Mu.
+
+(* the observation store: the block links read the index dicts as `positions k keys` (primitive of their configurations);
+   _update - the only method that writes them - keeps exactly that representation, starting from the empty store, and
+   encode_obs returns the four lists *)
+Theorem C08_model_is_source_update : forall o d y cl dd1 dd2,
+  obs_rep o d -> length (d_cl d) = nobs d -> length (d_dd1 d) = nobs d -> length (d_dd2 d) = nobs d ->
+  exists o', src_update o y cl dd1 dd2 = Ok o' /\ obs_rep o' (data_snoc d y cl dd1 dd2).
+Proof. exact src_update_is_model. Qed.
+Print Assumptions C08_model_is_source_update.
+
+Theorem C08_model_is_source_update_empty : obs_rep obs_empty data_empty.
+Proof. exact obs_rep_empty. Qed.
+Print Assumptions C08_model_is_source_update_empty.
+
+Theorem C08_model_is_source_encode_obs : forall o d, obs_rep o d -> src_encode_obs o = Ok (d_y d, d_cl d, d_dd1 d, d_dd2 d).
+Proof. exact src_encode_obs_is_model. Qed.
+Print Assumptions C08_model_is_source_encode_obs.
